@@ -454,6 +454,10 @@ for _id, _prop, _rule, _desc, _eb in [
     ("c05-eof-true-with-block", "C05", "R05.7", "read_block starting with eof = true: every decoded block is announced as the end", False),
     ("c05-eof-not-set-at-break", "C05", "R05.7", "read_block that does not raise eof when it meets the stop code of the block array", False),
     ("c05-blocks-not-counted", "C05", "R05.7", "read_block that does not count the blocks of a definite-length block array", False),
+    ("c01-rr-ttl-not-stored", "C01", "R01.3", "add_generic_rrlist that no longer stores the TTL the reader restores", False),
+    ("c01-presence-test-inverted-read", "C01", "R01.18", "read_generic_qr with `if (!qr.response_processing_data)`", False),
+    ("c01-presence-test-inverted-hash", "C01", "R01.18", "hash_value(QueryResponseSignature) with `if (!qrs.qr_transport_flags)`", False),
+    ("c03-optional-not-engaged", "C03", "R03.12", "QueryResponse::read dereferencing response_processing_data without storing a value into it first", True),
     ("c19-memo-not-reset", "C19", "R19.2", "ip-address lookup memo (C12g/3) that CdnsBlock::operator= does not reset", False),
     ("c16-guard-armed-early", "C16", "R16.6", "BlockClearGuard (C12g/2) armed before the write it guards", False),
     ("c16-guard-armed-early-c12", "C12", "R12.4", "BlockClearGuard (C12g/2) armed before the write it guards", False),
